@@ -2,6 +2,7 @@ import AaVerif.Ref.GrammarLemmas
 import AaVerif.Ref.GrammarPtrace
 import AaVerif.Ref.GrammarSignal
 import AaVerif.Ref.GrammarRlimit
+import AaVerif.Ref.GrammarChangeProfile
 import AaVerif.Aa.Parse
 import AaVerif.Aa.Sort
 import AaVerif.Generated.AaTables
@@ -259,5 +260,30 @@ example : Ref.read T (renderRule (Aa.Parse.rlimitRule (S "nofile") (S "65536")) 
 
 example : Ref.rlimitValueOk (S "infinity") = true ∧ Ref.rlimitValueOk (S "8MB") = true ∧ Ref.rlimitValueOk (S "-20") = true
     ∧ Ref.rlimitValueOk (S "MB") = false := by decide +kernel
+
+/-! ## `change_profile` rules, symbolically -/
+
+theorem cp_modes : (∀ m ∈ reqValues T "change_profile" "mode", Aa.Parse.CapW m) ∧
+    (reqValues T "change_profile" "mode").all (fun m => !Ref.isPathTok m) = true := by
+  constructor <;> decide +kernel
+
+/-- **Every printed `change_profile` rule**: every qualifier, no mode or any mode of the table, every exec word the
+reference syntax takes for a path (so it cannot be a mode keyword), every keyword-like target word: the reader finds
+mode, exec and target -/
+theorem C12_change_profile_all (audit deny : Bool) (m e t : Text)
+    (hm : m = [] ∨ m ∈ reqValues T "change_profile" "mode") (he : Aa.Parse.CapW e) (hp : Ref.isPathTok e = true)
+    (ht : Aa.Parse.CapW t) :
+    Ref.read T (renderRule (Aa.Parse.cpRule audit deny m e t) (padOf [])) =
+      some (mkR "change_profile" { audit := audit, deny := deny, owner := false } [.s m, .s e, .s t]) := by
+  refine read_cp T audit deny m e t (hm.elim Or.inl (fun h => Or.inr ⟨cp_modes.1 m h, by simpa using h⟩)) he ?_ hp ht
+  cases hc : (reqValues T "change_profile" "mode").contains e with
+  | false => rfl
+  | true =>
+    have := List.all_eq_true.mp cp_modes.2 e (by simpa using hc)
+    simp [hp] at this
+
+example : Ref.read T (renderRule (Aa.Parse.cpRule false true (S "safe") (S "/usr/bin/foo") (S "foo//bar")) (padOf []))
+    = some (mkR "change_profile" { audit := false, deny := true, owner := false } [.s (S "safe"), .s (S "/usr/bin/foo"), .s (S "foo//bar")]) :=
+  C12_change_profile_all false true _ _ _ (Or.inr (by decide +kernel)) (by decide +kernel) (by decide +kernel) (by decide +kernel)
 
 end C12
